@@ -15,11 +15,17 @@
   * non-vacuity               a concrete valid document (Ext edge + order edge into a nested DFG, constant,
                               conditional, tail loop, CFG with a Dom edge) and one rejected document per rule.
 
-  The builder model and `valid_of_wf_*` (DESIGN.md §5 C01) are built on top of this by the builder layer.
+  * builder steps            `wire_up_port_links`, `nonlocal_wire_has_order_link`, `wire_up_ports_links`: the
+                              wiring step of every dataflow builder adds the value link and, for a non-local
+                              wire, the state-order link rule R6 asks for (store level; the document-level
+                              rule is evaluated per generated program).
   Lemmas: `Proofs/Validate.lean`.
 -/
 import HugrVerif.Proofs.Validate
 import HugrVerif.Gen.ValidityTables
+import HugrVerif.Proofs.Build
+import HugrVerif.Props.C04
+import HugrVerif.Props.C13
 
 namespace HugrVerif.Props.C01
 open HugrVerif HugrVerif.Validate
@@ -303,5 +309,264 @@ example : rules (setNode 8 ⟨.const (.sum 2 B []), 1⟩) = ["R9.const"] := by d
 example : rules (setNode 8 ⟨.const (.sum 1 B [.tuple []]), 1⟩) = ["R9.const"] := by decide +kernel
 
 end Rejected
+
+/-! ## Builder steps establish the edge-locality rule (R6.order_edge)
+
+  Theorems about the builder model's wiring step `DfBase._wire_up_port` / `_wire_up` (`Build/Wire.lean`), in the
+  vocabulary of the store view (`linksList`, C04): the state-order edge that rule R6 demands for a value edge
+  entering a nested region is put there by the very call that adds the value edge.  Lemmas: `Proofs/Build.lean`,
+  `Proofs/Store.lean`. -/
+
+section BuilderSteps
+open HugrVerif.Build HugrVerif.Store
+
+/-- **One wiring step, exactly**: a `_wire_up_port(node, off, w)` that returns has found the ancestor-or-self
+    `anc` of `node` whose parent is the parent of the wire's source, and the links afterwards are the links
+    before, then the order link `source → anc` when the wire is non-local (`anc ≠ node`) and that order link is
+    not there yet, then the value link — nothing else. -/
+theorem wire_up_port_links (s s' : St) (hs : SInv s) (node off : Nat) (w : Wire) (t : Ty)
+    (h : wireUpPortBase s node off w = .ok (s', t)) :
+    ∃ anc p, nodeParent s w.1 = .ok (some p) ∧ Anc s node anc ∧ nodeParent s anc = .ok (some p) ∧
+      linksList s' =
+        (if anc = node ∨ ((w.1, (-1 : Int)), (anc, (-1 : Int))) ∈ linksList s then linksList s
+         else linksList s ++ [((w.1, (-1 : Int)), (anc, (-1 : Int)))]) ++ [(w, (node, (off : Int)))] := by
+  unfold wireUpPortBase at h
+  cases ha : ancestralSibling s w.1 node with
+  | error e => simp [ha] at h
+  | ok oa =>
+    cases oa with
+    | none => simp [ha] at h
+    | some anc =>
+      simp only [ha] at h
+      obtain ⟨p, e1, e2, e3⟩ := C13.sibling_ancestor_spec s w.1 node anc ha
+      refine ⟨anc, p, e1, e2, e3, ?_⟩
+      unfold linkPort at h
+      by_cases hne : anc = node
+      · subst hne
+        simp only [ne_eq, not_true_eq_false, if_false] at h
+        cases hl : Store.addLink s w (anc, (off : Int)) with
+        | error e => simp [hl, liftS] at h
+        | ok s2 =>
+          simp only [hl, liftS] at h
+          cases hg : getDataflowType s2 w with
+          | error e => simp [hg] at h
+          | ok t' =>
+            simp only [hg] at h
+            injection h with h; injection h with h1 h2; subst h1
+            simp [(addLink_links s s2 hs.links _ _ hl).1]
+      · simp only [ne_eq, hne, not_false_eq_true, if_true] at h
+        cases ho : Store.addOrderLink s w.1 anc with
+        | error e => simp [ho, liftS] at h
+        | ok s1 =>
+          simp only [ho, liftS] at h
+          have hs1 := sinv_addOrderLink s s1 hs w.1 anc ho
+          have hl1 := C04.add_order_link_spec s s1 hs w.1 anc ho
+          cases hl : Store.addLink s1 w (node, (off : Int)) with
+          | error e => simp [hl] at h
+          | ok s2 =>
+            simp only [hl] at h
+            cases hg : getDataflowType s2 w with
+            | error e => simp [hg] at h
+            | ok t' =>
+              simp only [hg] at h
+              injection h with h; injection h with h1 h2; subst h1
+              rw [(addLink_links s1 s2 hs1.links _ _ hl).1, hl1]
+              simp [hne]
+
+/-- **Edge locality is established by the wiring step itself**: after a successful `_wire_up_port` of a
+    non-local wire the order link from the wire's source to the sibling ancestor of the target is present,
+    and so is the value link. -/
+theorem nonlocal_wire_has_order_link (s s' : St) (hs : SInv s) (node off : Nat) (w : Wire) (t : Ty)
+    (h : wireUpPortBase s node off w = .ok (s', t)) :
+    (w, (node, (off : Int))) ∈ linksList s' ∧
+    ∃ anc p, nodeParent s w.1 = .ok (some p) ∧ Anc s node anc ∧ nodeParent s anc = .ok (some p) ∧
+      (anc ≠ node → ((w.1, (-1 : Int)), (anc, (-1 : Int))) ∈ linksList s') := by
+  obtain ⟨anc, p, e1, e2, e3, hl⟩ := wire_up_port_links s s' hs node off w t h
+  refine ⟨by rw [hl]; simp, anc, p, e1, e2, e3, ?_⟩
+  intro hne
+  rw [hl]
+  by_cases hm : ((w.1, (-1 : Int)), (anc, (-1 : Int))) ∈ linksList s
+  · simp [hm]
+  · simp [hne, hm]
+
+/-- … and a local wire (source and target siblings) adds the value link only. -/
+theorem local_wire_adds_value_link_only (s s' : St) (hs : SInv s) (node off : Nat) (w : Wire) (t : Ty)
+    (h : wireUpPortBase s node off w = .ok (s', t))
+    (hloc : ∃ p, nodeParent s w.1 = .ok (some p) ∧ nodeParent s node = .ok (some p)) :
+    linksList s' = linksList s ++ [(w, (node, (off : Int)))] := by
+  obtain ⟨p, hp1, hp2⟩ := hloc
+  have ha : ancestralSibling s w.1 node = .ok (some node) := by
+    unfold ancestralSibling
+    simp only [hp1]
+    unfold ancSibLoop
+    simp [hp2]
+  unfold wireUpPortBase at h
+  simp only [ha] at h
+  unfold linkPort at h
+  simp only [ne_eq, not_true_eq_false, if_false] at h
+  cases hl2 : Store.addLink s w (node, (off : Int)) with
+  | error e => simp [hl2, liftS] at h
+  | ok s2 =>
+    simp only [hl2, liftS] at h
+    cases hg : getDataflowType s2 w with
+    | error e => simp [hg] at h
+    | ok t' =>
+      simp only [hg] at h
+      injection h with h; injection h with h1 h2; subst h1
+      exact (addLink_links s s2 hs.links _ _ hl2).1
+
+/-! ### the whole argument list of `_wire_up` -/
+
+theorem grow_nodeParent (s s' : St) (G : StoreGrow s s') (i : Nat) : nodeParent s' i = nodeParent s i := by
+  unfold nodeParent
+  cases hg : Store.getNode s i with
+  | ok d =>
+    obtain ⟨d', e1, g⟩ := G.fwd i d hg
+    simp [e1, g.parent]
+  | error e =>
+    cases hg1 : Store.getNode s' i with
+    | ok d' =>
+      obtain ⟨d, hd⟩ := G.bwd i d' hg1
+      rw [hg] at hd; cases hd
+    | error e' =>
+      rw [getNode_error s i e hg, getNode_error s' i e' hg1]
+
+theorem grow_anc (s s' : St) (G : StoreGrow s s') (a b : Nat) (h : Anc s' a b) : Anc s a b := by
+  induction h with
+  | refl a => exact .refl a
+  | step a p b hp _ ih => exact .step a p b (by rw [← grow_nodeParent s s' G a]; exact hp) ih
+
+/-- the wiring step only grows port counts, and keeps the store invariant -/
+theorem wire_up_port_grow (s s' : St) (hs : SInv s) (node off : Nat) (w : Wire) (t : Ty) (hw : -1 ≤ w.2)
+    (h : wireUpPortBase s node off w = .ok (s', t)) : StoreGrow s s' ∧ SInv s' := by
+  unfold wireUpPortBase at h
+  cases ha : ancestralSibling s w.1 node with
+  | error e => simp [ha] at h
+  | ok oa =>
+    cases oa with
+    | none => simp [ha] at h
+    | some anc =>
+      simp only [ha] at h
+      unfold linkPort at h
+      have key : ∀ s1, SInv s1 → StoreGrow s s1 → ∀ s2, Store.addLink s1 w (node, (off : Int)) = .ok s2 →
+          StoreGrow s s2 ∧ SInv s2 := by
+        intro s1 h1 g1 s2 hl
+        exact ⟨g1.trans (addLink_nodes s1 s2 _ _ hl).1,
+          sinv_addLink s1 s2 h1 w (node, (off : Int)) hw (by simp) hl⟩
+      by_cases hne : anc = node
+      · simp only [ne_eq, hne, not_true_eq_false, if_false] at h
+        cases hl : Store.addLink s w (node, (off : Int)) with
+        | error e => simp [hl, liftS] at h
+        | ok s2 =>
+          simp only [hl, liftS] at h
+          cases hg : getDataflowType s2 w with
+          | error e => simp [hg] at h
+          | ok t' =>
+            simp only [hg] at h
+            injection h with h; injection h with h1 h2; subst h1
+            exact key s hs (StoreGrow.refl s) s2 hl
+      · simp only [ne_eq, hne, not_false_eq_true, if_true] at h
+        cases ho : Store.addOrderLink s w.1 anc with
+        | error e => simp [ho, liftS] at h
+        | ok s1 =>
+          simp only [ho, liftS] at h
+          have hs1 := sinv_addOrderLink s s1 hs w.1 anc ho
+          have g1 : StoreGrow s s1 := by
+            unfold Store.addOrderLink at ho
+            split at ho
+            · simp [pure, Except.pure] at ho; subst ho; exact StoreGrow.refl s
+            · exact (addLink_nodes s s1 _ _ ho).1
+          cases hl : Store.addLink s1 w (node, (off : Int)) with
+          | error e => simp [hl] at h
+          | ok s2 =>
+            simp only [hl] at h
+            cases hg : getDataflowType s2 w with
+            | error e => simp [hg] at h
+            | ok t' =>
+              simp only [hg] at h
+              injection h with h; injection h with h1 h2; subst h1
+              exact key s1 hs1 g1 s2 hl
+
+/-- **Edge locality for a whole `_wire_up(node, wires)`** (the plain `DfBase` wiring used by `add_op`, `add`,
+    `call`, `load`, `set_outputs`, nested builders …): when it returns, no earlier link is lost, every wire of
+    the list is linked to the port at its position, and every non-local one has its state-order link from the
+    source to the sibling ancestor of the target (an ancestor-or-self of `node` with the source's parent). -/
+theorem wire_up_ports_links (node : Nat) : ∀ (ws : List Wire) (s s' : St) (i : Nat) (tys : List Ty),
+    SInv s → (∀ w ∈ ws, -1 ≤ w.2) → wireUpPorts none node s i ws = .ok (s', tys) →
+    StoreGrow s s' ∧ SInv s' ∧ (∀ l ∈ linksList s, l ∈ linksList s') ∧
+    ∀ k (hk : k < ws.length), (ws[k], (node, ((i + k : Nat) : Int))) ∈ linksList s' ∧
+      ∃ anc p, nodeParent s ws[k].1 = .ok (some p) ∧ Anc s node anc ∧ nodeParent s anc = .ok (some p) ∧
+        (anc ≠ node → ((ws[k].1, (-1 : Int)), (anc, (-1 : Int))) ∈ linksList s') := by
+  intro ws
+  induction ws with
+  | nil =>
+    intro s s' i tys hs _ h
+    simp [wireUpPorts] at h
+    obtain ⟨h1, _⟩ := h; subst h1
+    exact ⟨StoreGrow.refl s, hs, fun l hl => hl, fun k hk => by simp at hk⟩
+  | cons w ws ih =>
+    intro s s' i tys hs hw h
+    unfold wireUpPorts at h
+    cases h1 : wireUpPort s none node i w with
+    | error e => simp [h1] at h
+    | ok r =>
+      obtain ⟨s1, t⟩ := r
+      simp only [h1] at h
+      cases h2 : wireUpPorts none node s1 (i + 1) ws with
+      | error e => simp [h2] at h
+      | ok r2 =>
+        obtain ⟨s2, ts⟩ := r2
+        simp only [h2] at h
+        injection h with h; injection h with h3 h4; subst h3
+        have h1' : wireUpPortBase s node i w = .ok (s1, t) := h1
+        obtain ⟨g1, hs1⟩ := wire_up_port_grow s s1 hs node i w t (hw w (by simp)) h1'
+        obtain ⟨hv, anc, p, e1, e2, e3, e4⟩ := nonlocal_wire_has_order_link s s1 hs node i w t h1'
+        obtain ⟨g2, hs2, hmono, hrest⟩ := ih s1 s2 (i + 1) ts hs1 (fun w' hw' => hw w' (by simp [hw'])) h2
+        have hmono1 : ∀ l ∈ linksList s, l ∈ linksList s1 := by
+          intro l hl
+          obtain ⟨anc', p', _, _, _, hh⟩ := wire_up_port_links s s1 hs node i w t h1'
+          rw [hh]
+          split <;> simp [hl]
+        refine ⟨g1.trans g2, hs2, fun l hl => hmono l (hmono1 l hl), ?_⟩
+        intro k hk
+        cases k with
+        | zero =>
+          refine ⟨hmono _ (by simpa using hv), anc, p, e1, e2, e3, fun hne => hmono _ (e4 hne)⟩
+        | succ k =>
+          have hk' : k < ws.length := by simpa using hk
+          obtain ⟨hv', anc', p', f1, f2, f3, f4⟩ := hrest k hk'
+          refine ⟨?_, anc', p', ?_, grow_anc s s1 g1 _ _ f2, ?_, ?_⟩
+          · have : i + 1 + k = i + (k + 1) := by omega
+            simpa [this] using hv'
+          · rw [← grow_nodeParent s s1 g1]; simpa using f1
+          · rw [← grow_nodeParent s s1 g1]; exact f3
+          · simpa using f4
+
+/-! ### non-vacuity: a wire from the outer Input into an operation inside a nested DFG -/
+
+namespace ExBuild
+
+def B : Ty := .unitSum 2
+
+/-- root DFG 0 [Input 1, nested DFG 2 [Input 3, Not 4]] -/
+def base : Except Store.Err St := do
+  let s : St := Store.init (.dfg [B] none []) []
+  let (s, _) ← Store.addNode s (.input [B]) none (some 1) []
+  let (s, _) ← Store.addNode s (.dfg [] none []) none (some 0) []
+  let (s, _) ← Store.addNode s (.input []) (some 2) (some 0) []
+  let (s, _) ← Store.addNode s (.custom "Not" ⟨[B], [B], []⟩ "" "logic" []) (some 2) (some 1) []
+  pure s
+
+/-- wiring `Input(1).out(0)` into `Not(4).in(0)`: the order link 1 → 2 (the nested DFG is the sibling
+    ancestor) and the value link are added -/
+example : (match base with
+    | .ok s => (match wireUpPortBase s 4 0 (1, 0) with
+      | .ok (s', t) => some (linksList s', t == B)
+      | .error _ => none)
+    | .error _ => none) = some ([((1, -1), (2, -1)), ((1, 0), (4, 0))], true) := by decide +kernel
+
+end ExBuild
+
+end BuilderSteps
 
 end HugrVerif.Props.C01
